@@ -5,6 +5,8 @@ import (
 	"encoding/hex"
 	"errors"
 	"fmt"
+	"io"
+	"io/ioutil"
 	"os"
 	"os/exec"
 	"path/filepath"
@@ -261,6 +263,7 @@ func (t *Task) Execute() {
 	}
 
 	if t.anyOutputsExist() {
+		t.drainStreamingInputs()
 		t.Done <- 1
 		return
 	}
@@ -302,6 +305,23 @@ func (t *Task) Execute() {
 // ------------------------------------------------------------------------
 // Helper methods for the Execute method
 // ------------------------------------------------------------------------
+
+// drainStreamingInputs reads and discards everything arriving on the FIFOs of
+// streaming in-IPs. It is used when the task is skipped because its outputs
+// already exist, so that the tasks writing to those FIFOs are not blocked
+// forever waiting for a reader.
+func (t *Task) drainStreamingInputs() {
+	for _, iip := range t.InIPs {
+		if iip.doStream {
+			fifo, err := os.Open(iip.FifoPath())
+			if err != nil {
+				continue
+			}
+			io.Copy(ioutil.Discard, fifo)
+			fifo.Close()
+		}
+	}
+}
 
 // anyTempFileExists checks if any temporary workflow files exist and if so, returns true
 func (t *Task) tempDirsExist() bool {
